@@ -5,8 +5,8 @@ the operators and every referenced name with its position.  Each document is sen
   * as text to the real crate: cddl::cddl_from_str (duplicate check only) and
     cddl::ast::CDDL::from_slice (duplicate check + undefined-reference check), and
   * as abstract description to the model extracted from Coq (Rules/Dup.v, Rules/RefCheck.v), which
-    also prints the verdict of the executable specification (Spec.Unresolved) and the classifier bit
-    of the open finding.
+    also prints the verdict of the executable specification (Spec.Unresolved) and a class marker
+    (documents of the class of the finding repaired in /repo commit a8c9ab3; statistics only).
 Compared: Ok / Err, the rule name in the error, and the line and byte offset of the later
 definition (duplicates) or of the reported reference (undefined names)."""
 import importlib.util, json, os, random
@@ -16,7 +16,6 @@ from ..common import Result
 PROP = "C12"
 PROP_FILE = "theories/Props/C12.v"
 EXTRACT = "theories/Extract/ExtractRules.vo"
-KF_SOCKET = "kf-c12-socket-rule-defines-base-name"
 
 RFC_PRELUDE = ["any", "uint", "nint", "int", "bstr", "bytes", "tstr", "text", "tdate", "time", "number", "biguint",
                "bignint", "bigint", "integer", "unsigned", "decfrac", "bigfloat", "eb64url", "eb64legacy", "eb16",
@@ -758,7 +757,7 @@ def evaluate(cases, drv, orc):
     return impl, model
 
 def judge(c, impl_line, model_line):
-    """returns (status, detail): status in ok | known | violation"""
+    """returns (status, detail): status in ok | violation"""
     ip = impl_line.split("\t")
     mp = model_line.split("\t")
     if len(ip) != 2 or len(mp) != 4:
@@ -766,17 +765,27 @@ def judge(c, impl_line, model_line):
     want_plain, want_checked, want_spec = c.expect(mp[0]), c.expect(mp[1]), c.expect(mp[2])
     if ip[0] != want_plain:
         return "violation", "cddl_from_str: implementation `%s`, model (duplicate check, theorem dup_spec) `%s`" % (ip[0], want_plain)
+    if want_checked != want_spec:
+        return "violation", ("internal: model `%s` differs from the executable specification `%s` (contradicts theorem refcheck_eq_spec; "
+                             "stale extraction?)") % (want_checked, want_spec)
     if ip[1] == want_spec:
-        if want_checked != want_spec:
-            return "repaired", "CDDL::from_slice `%s` agrees with the specification, not with the model of the current code `%s`" % (ip[1], want_checked)
         return "ok", ""
-    if ip[1] == want_checked and mp[3] == "1":
-        return "known", "CDDL::from_slice `%s` (as the faithful model), specification `%s`" % (ip[1], want_spec)
-    if ip[1] == want_checked:
-        return "violation", ("CDDL::from_slice: implementation `%s`, specification `%s`; the model of the current code agrees with the "
-                             "implementation and the document is outside the classified class (the code's prelude table differs from "
-                             "RFC 8610 Appendix D: theorem prelude_table_ok no longer holds)") % (ip[1], want_spec)
-    return "violation", "CDDL::from_slice: implementation `%s`, model `%s`, specification `%s`" % (ip[1], want_checked, want_spec)
+    extra = ""
+    if mp[3] == "1":
+        extra = (" [the document is of the socket-shadow class: a reference resolved only by the identifier of a `$x` / `$$x` rule head; "
+                 "the defect repaired in /repo commit a8c9ab3 has returned?]")
+    return "violation", "CDDL::from_slice: implementation `%s`, model = specification (theorem refcheck_spec) `%s`%s" % (ip[1], want_spec, extra)
+
+# witnesses of repaired findings: run first on every run; a relapse is a VIOLATION
+FIXED_WITNESSES = [
+    ("a8c9ab3:type-socket-head", [("$a", "=", "`int`"), ("b", "=", "`a`")]),
+    ("a8c9ab3:type-socket-increment-later", [("b", "=", "[`a`]"), ("$a", "/=", "`int`")]),
+    ("a8c9ab3:group-socket-head", [("$$g", "//=", "(x: `int`)"), ("b", "=", "[`g`]")]),
+    ("a8c9ab3:group-socket-head-enum", [("$$g", "//=", "(x: `int`)"), ("b", "=", "&`g`")]),
+]
+
+def fixed_witnesses():
+    return [Case("fixed-witness:" + lab, [Rule(n, op, B(body)) for n, op, body in rules]) for lab, rules in FIXED_WITNESSES]
 
 def own_findings():
     kfs = [k for k in common.known_findings(PROP)]
@@ -807,13 +816,13 @@ def run(tier, seed):
     kfs = own_findings()
     witnesses = [witness_case(k) for k in kfs]
     ex_cases, ex_scope = exhaustive_dup()
-    cases = witnesses + near_misses() + prelude_probes(code_names) + ex_cases + catalogue(rng, n_deep)
+    cases = witnesses + fixed_witnesses() + near_misses() + prelude_probes(code_names) + ex_cases + catalogue(rng, n_deep)
     n_fixed = len(cases)
     cases += [random_doc(rng) for _ in range(n_random)]
     impl, model = evaluate(cases, drv, orc)
 
     hist, verdicts, sites_undef, sites_all, nrules_hist = {}, {}, {}, {}, {}
-    distinct, known_hits, repaired = set(), 0, 0
+    distinct, shadow_class = set(), 0
     syntax_unexpected = 0
     for k, (c, a, b) in enumerate(zip(cases, impl, model)):
         cls = c.cls.split(":")[0]
@@ -829,6 +838,7 @@ def run(tier, seed):
                 sites_all[key] = sites_all.get(key, 0) + 1
         mp = b.split("\t")
         if len(mp) == 4:
+            shadow_class += mp[3] == "1"
             s = c.site_of(mp[1])
             if s:
                 sites_undef[s.split("@")[0]] = sites_undef.get(s.split("@")[0], 0) + 1
@@ -836,31 +846,18 @@ def run(tier, seed):
             distinct.add(c.text)
         if status == "ok":
             continue
-        if status == "known":
-            known_hits += 1
-            if any(kf["id"] == KF_SOCKET for kf in kfs):
-                continue                     # reported once, by the witness replay below
-            res.violation("CDDL::from_slice deviates from the specification on a document of the socket-shadow class, "
-                          "and no open finding covers it: " + detail + "\n" + c.text.decode(), c.replay_dict())
-            continue
-        if status == "repaired":
-            repaired += 1
-            continue
         if a.startswith("CRASH") or "PANIC" in a:
             detail = "implementation crashed: " + a
         if "SYNTAX" in a:
             syntax_unexpected += 1
         res.violation(detail + "\n" + c.text.decode(), c.replay_dict())
 
-    # open findings: replay the witness (first cases of the batch)
+    # open findings (none at present): replay the witness (first cases of the batch); a witness that still fails
+    # has already been recorded as a violation above unless the finding is open
     for kf, c, a, b in zip(kfs, witnesses, impl, model):
         status, detail = judge(c, a, b)
-        if status == "known":
-            res.known(kf)
-        elif status in ("ok", "repaired"):
+        if status == "ok":
             res.notes.append("finding %s apparently repaired: %s -> %s" % (kf["id"], c.text.decode().replace("\n", " | "), a))
-    if repaired:
-        res.notes.append("%d documents of the socket-shadow class are now decided as the specification says (finding repaired?)" % repaired)
 
     # vm_compute slice: guards extraction
     sl_idx = sorted(rng.sample(range(n_fixed, len(cases)), min(140, len(cases) - n_fixed)) +
@@ -903,7 +900,7 @@ def run(tier, seed):
         "rules_per_document": {str(k): v for k, v in sorted(nrules_hist.items())},
         "reference_sites_generated": sites_all,
         "reference_sites_reported_undefined": sites_undef,
-        "known_finding_class_hits": known_hits,
+        "socket_shadow_class_documents": shadow_class,
         "unexpected_syntax_errors": syntax_unexpected,
         "vm_compute_slice": len(sl),
         "prelude_names_in_code": len(code_names),
